@@ -65,10 +65,23 @@ def norm_effect(e):
     if k == "opassign" and e[1] == "Add" and e[3] == lit_int(1):
         return ("inc", e[2])
     if k == "assign":
+        # `x = x + 1` is the same effect as `x += 1`
+        t = e[2]
+        if t[0] == "lin" and t[2] == 1 and len(t[1]) == 1 and t[1][0][1] == 1 and e[1][0] == "place" and is_old_value(t[1][0][0], e[1]):
+            return ("inc", e[1])
         return ("assign", e[1], e[2])
     if k in ("loopsum", "inloop"):
         return None
     return ("other",) + tuple(e)
+
+
+def is_old_value(t, place):
+    """t is the loop-entry value of `place` (("loop", root, _) followed by the place's field path)"""
+    path = []
+    while t[0] == "field":
+        path.append(t[2])
+        t = t[1]
+    return t[0] == "loop" and t[1] == place[1] and tuple(reversed(path)) == tuple(place[2])
 
 
 class RecordLoop:
